@@ -34,7 +34,7 @@ Definition rd_set_type (t : Z) (r : redirect) : redirect :=
 Definition redirect_is_set (r : redirect) : bool :=
   negb (rd_type r =? 0) || negb (rd_handle r =? 0) || negb (rd_file r =? 0) || isSome (rd_path r).
 
-(* options.c:10-82.  None = REPROC_EINVAL *)
+(* options.c:10-71 (with the D13 fix applied: 10-76).  None = REPROC_EINVAL *)
 Definition parse_redirect (r0 : redirect) (stream : Z) (parent discard : bool)
            (file : Z) (path : option str) : option redirect :=
   (* if (file) *)
@@ -82,18 +82,26 @@ Definition parse_redirect (r0 : redirect) (stream : Z) (parent discard : bool)
       else Some (rd_set_type REPROC_REDIRECT_PATH r4)
     else Some r4 in
   match s5 with None => None | Some r5 =>
+  (* if (type == STDOUT) ASSERT_EINVAL(stream == REPROC_STREAM_ERR);
+     -- the D13 fix (_build/c13/fix_D13.patch); absent from the pinned tree *)
+  let s6 : option redirect :=
+    if rd_type r5 =? REPROC_REDIRECT_STDOUT then
+      if negb (stream =? REPROC_STREAM_ERR) then None
+      else Some r5
+    else Some r5 in
+  match s6 with None => None | Some r6 =>
   (* if (type == DEFAULT) *)
-  if rd_type r5 =? REPROC_REDIRECT_DEFAULT then
+  if rd_type r6 =? REPROC_REDIRECT_DEFAULT then
     if parent then
-      if discard then None else Some (rd_set_type REPROC_REDIRECT_PARENT r5)
+      if discard then None else Some (rd_set_type REPROC_REDIRECT_PARENT r6)
     else if discard then
-      Some (rd_set_type REPROC_REDIRECT_DISCARD r5)
+      Some (rd_set_type REPROC_REDIRECT_DISCARD r6)
     else Some (rd_set_type (if stream =? REPROC_STREAM_ERR then REPROC_REDIRECT_PARENT
-                            else REPROC_REDIRECT_PIPE) r5)
-  else Some r5
-  end end end end end.
+                            else REPROC_REDIRECT_PIPE) r6)
+  else Some r6
+  end end end end end end.
 
-(* options.c:84-99 *)
+(* options.c:73-87 *)
 Definition parse_stop_actions (s : stop_actions) : stop_actions :=
   if (sa_action (st_first s) =? REPROC_STOP_NOOP) && (sa_action (st_second s) =? REPROC_STOP_NOOP)
      && (sa_action (st_third s) =? REPROC_STOP_NOOP)
@@ -112,7 +120,7 @@ Definition o_with_parsed (i o e : redirect) (dl : Z) (st : stop_actions) (x : op
 (* argv as the validation sees it: NULL, or non-NULL with argv[0] NULL or not *)
 Inductive argv_form := ArgvNull | ArgvEmpty | ArgvOk.
 
-(* options.c:101-137.  None = REPROC_EINVAL *)
+(* options.c:89-137.  None = REPROC_EINVAL *)
 Definition parse_options (o : options) (argv : argv_form) : option options :=
   match parse_redirect (o_in o) REPROC_STREAM_IN (o_parent o) (o_discard o) 0 None with
   | None => None | Some i =>
